@@ -629,6 +629,24 @@ pub fn run_one(case: &C14Case) -> Result<(C14Stats, Option<Viol>), RunErr> {
 
 pub fn run_shard(ctx: &mut Ctx) {
     let mut r = Rng::new(ctx.shard_seed());
+    // a snapshot of the old instance that outlives it (taken before its last purge): dropping it later must not touch
+    // the directory
+    {
+        ctx.begin_phase(0.1);
+        for k in 0..4u64 {
+            if !ctx.time_left() {
+                break;
+            }
+            if let Some(ci) = crate::props::image::make_clean_image(r.next(), 600_000 + k + ctx.shard as u64 * 1000, 3000) {
+                match crate::props::c13x::snapshot_outlives_owner_round(&ci) {
+                    Ok(Some(vi)) if vi.prop == "C14" => ctx.out.viol(vi),
+                    Ok(_) => ctx.out.count("old_instance_snapshots_dropped_under_a_new_instance", 1),
+                    Err(e) => ctx.out.inconclusive.push(format!("snapshot round: {}", e)),
+                }
+            }
+        }
+        ctx.end_phase();
+    }
     let quick_n = 60u64;
     let mut h = 0u64;
     loop {
